@@ -134,8 +134,13 @@ def symlink_destinations(ds, scratch):
                 else:
                     out[rel] = ("file", open(p, "rb").read())
         return out
+    tmpd_same = tmpd
+    xdir = other_filesystem_dir()
     try:
-        for kind in ("relative-target", "absolute-target", "dangling", "relative-target-up"):
+      for xfs in ([False, True] if xdir else [False]):
+        # xfs: the temp directory is on another file system, shutil.move copies through the links (IOLinks.serialize_to_lx)
+        tmpd = os.path.join(xdir, "c17_tmpl_%d" % os.getpid()) if xfs else tmpd_same
+        for kind in ("relative-target", "absolute-target", "dangling", "relative-target-up", "chain"):
             for fmt, doc in (("json", ds[0]), ("provn", ds[-1]), ("xml", ds[0])):
                 shutil.rmtree(root, ignore_errors=True)
                 shutil.rmtree(tmpd, ignore_errors=True)
@@ -156,6 +161,11 @@ def symlink_destinations(ds, scratch):
                     open(os.path.join(root, "elsewhere", "data.json"), "wb").write(b"OLD CONTENT")
                     os.symlink(os.path.join(root, "elsewhere", "data.json"), link)
                     real = "elsewhere/data.json"
+                elif kind == "chain":
+                    open(os.path.join(root, "elsewhere", "data.json"), "wb").write(b"OLD CONTENT")
+                    os.symlink("../elsewhere/data.json", os.path.join(root, "sub", "second"))
+                    os.symlink("second", link)
+                    real = "elsewhere/data.json"
                 else:
                     os.symlink("nothing-here.json", link)
                     real = "sub/nothing-here.json"
@@ -173,8 +183,9 @@ def symlink_destinations(ds, scratch):
                 finally:
                     os.chdir(cwd)
                 after = snap()
-                case = {"name": "sub/out." + fmt, "destination_is": "a symbolic link, " + kind, "format": fmt}
-                model_cases.append((case, before, "sub/out." + fmt, expected, after))
+                case = {"name": "sub/out." + fmt, "destination_is": "a symbolic link, " + kind, "format": fmt,
+                        "temp_dir_on_another_file_system": bool(xfs)}
+                model_cases.append((case, before, "sub/out." + fmt, expected, after, bool(xfs)))
                 if raised:
                     fails.append(dict(case, what="serialize to a name that is a symbolic link raised", exc=raised))
                     continue
@@ -184,7 +195,11 @@ def symlink_destinations(ds, scratch):
                     got = repr(e)
                 if got != expected:
                     fails.append(dict(case, what="reading the named file does not give the serialisation", got=str(got[:60])))
-                ch = [f for f in sorted(set(before) | set(after)) if before.get(f) != after.get(f) and f not in ("sub/out." + fmt, real)]
+                # a link is compared as an entry (its target text): what reading *through* it gives changes with the file at the
+                # end of the chain, which is `real`
+                def ent(e):
+                    return e[:2] if e and e[0] == "link" else e
+                ch = [f for f in sorted(set(before) | set(after)) if ent(before.get(f)) != ent(after.get(f)) and f not in ("sub/out." + fmt, real)]
                 if ch:
                     fails.append(dict(case, what="serialize changed a file other than the named one", files=ch))
                 if os.listdir(tmpd):
@@ -233,6 +248,8 @@ def symlink_destinations(ds, scratch):
     finally:
         os.chdir(cwd)
         tempfile.tempdir = old_tmp
+        if xdir:
+            shutil.rmtree(os.path.join(xdir, "c17_tmpl_%d" % os.getpid()), ignore_errors=True)
     # the same cases through the model of the write protocol over files and links (IOLinks.serialize_to_l; temp file and
     # destination are on one file system here, so the last step is os.rename): the tree afterwards must be the model's
     if os.path.exists(common.DRIVER) and model_cases:
@@ -246,14 +263,15 @@ def symlink_destinations(ds, scratch):
                     t = os.path.relpath(t, root) if os.path.isabs(t) else os.path.normpath(os.path.join(os.path.dirname(rel), t))
                     out.append([rel, ["link", t]])
             return out
-        reqs = [dumps(["destlinks", entries(b, None), name, exp.decode("utf-8", "replace")]) for _, b, name, exp, _ in model_cases]
-        for (case, b, name, exp, a), line in zip(model_cases, common.run_model_batch(reqs)):
+        reqs = [dumps(["destlinksx" if x else "destlinks", entries(b, None), name, exp.decode("utf-8", "replace")])
+                for _, b, name, exp, _, x in model_cases]
+        for (case, b, name, exp, a, x), line in zip(model_cases, common.run_model_batch(reqs)):
             m = loads(line)
             want = sorted((x[0], tuple(x[1])) for x in m[1]) if isinstance(m, list) and m and m[0] == "ok" else None
             got = sorted((x[0], tuple(x[1])) for x in entries(a, None))
             if want != got:
                 fails.append(dict(case, what="the tree after the call is not the one the model of the write protocol gives "
-                                             "(IOLinks.serialize_to_l; C17_links_exact)",
+                                             "(IOLinks.serialize_to_l / serialize_to_lx; C17_links_exact / C17_xdev_exact)",
                                   model=str(want)[:400], implementation=str(got)[:400]))
     return n, fails
 
